@@ -2,20 +2,26 @@
 Model for property C06 — every persistence driver behaves like the reference record store.
 
 Mirrors
-  qtoggleserver/utils/json.py            dumps (scalar fast path), loads + the "extended types" hooks,
-                                         on top of a character-level model of CPython's json.dumps / json.loads
+  qtoggleserver/utils/json.py            dumps (scalar fast path), loads + the "extended types" hooks, on top of
+                                         a character-level model of CPython's json.dumps / json.loads
+                                         (ensure_ascii, default separators; strict scanstring)
   qtoggleserver/drivers/persist/json.py  JSONDriver.query/insert/update/replace/remove, _filter_matches,
-                                         _filter_value_matches, _find_next_id, _index/_unindex (reload)
+                                         _filter_value_matches, _find_next_id, _index/_unindex (`Op.reload`)
   qtoggleserver/drivers/persist/redis.py RedisDriver.query/insert/update/replace/remove, _get_next_id,
-                                         _record_to_db/_record_from_db, _value_to_db/_value_from_db
-and defines the SPEC: `Ref` — a plain in-memory record store (collections = insertion-ordered lists of
-records id ↦ fields; declarative query = filter, lexicographic stable sort, limit, projection).
+                                         _record_to_db/_record_from_db, _value_to_db/_value_from_db, over an
+                                         abstract key–value server (hashes by id, the id set, the id counter)
+  qtoggleserver/persist/__init__.py      replace (replace-or-insert and its return value)
+and defines the SPEC: `Ref` — a plain in-memory record store: a collection is the list of its records in
+insertion order, a record is a dict holding its id under "id"; a query is filter → stable sort by the
+lexicographic order of the sort keys → limit → projection; the name of an auto-generated id is an input of the
+step (any name not in use is acceptable), operations outside the contract are rejected explicitly (`Res.err`).
 
-Strings are lists of Unicode code points (`Str = List Nat`). Floats are opaque IEEE-754 bit patterns whose
-text form (`float.__repr__` / `float()`) is an environment parameter `FloatText`; dates are carried by their
-`strftime` text. Repairs of defects found in /repo are behind the `Fix` flags (all `true` = repaired code =
-the model proper; a flag set to `false` gives the code as found, used only by the `unrepaired_…` theorems).
-Core Lean only.
+Strings are lists of Unicode code points (`Str = List Nat`). Floats are IEEE-754 bit patterns compared exactly
+(also with integers); their text form (`float.__repr__` / `float()`) and the text form of dates
+(`strftime` / `strptime`) are an environment parameter `FloatText`. Python's `==`, `<`, `in` on JSON-like values
+are `jeq`, `jcmp`, `opEval` (`none` = TypeError). Repairs of defects found in /repo are behind the `Fix` flags
+(all `true` = repaired code = the model proper; `Fix.asFound` = the code at the pinned commit, used only by the
+`unrepaired_…` theorems). Core Lean only.
 -/
 namespace QtVerif.Store
 
